@@ -11,7 +11,7 @@ git -C /repo worktree remove --force $WT 2>/dev/null
 git -C /repo worktree add -q --detach $WT ${BENIGN_BASE:-77c6893} || exit 2
 mkdir -p /tmp/benign_verif; cp /verif/known_findings.json /tmp/benign_verif/
 n=0; bad=0
-for d in benign/${1:-}*/; do
+for d in benign/${1:-}*${BENIGN_SUFFIX:-}*/; do
   id=$(basename $d)
   git -C $WT checkout -q -- . ; git -C $WT clean -qfd
   if ! git -C $WT apply /verif/$d/patch.diff 2>/dev/null; then echo "SKIP $id: patch does not apply"; continue; fi
